@@ -13,3 +13,46 @@ Theorem C06_backoff_nominal : map (fun k => Z.shiftl 1 (k - 1) * 1000) [1; 2; 3]
 Proof. reflexivity. Qed.
 
 Print Assumptions C06_backoff_window.
+
+(* ---- the retry monitor (Model/Monitors.v step6) accepts every trace of the model ----
+   step6 rejects: a fourth update-check request in one check; a request not separated from the previous one by a wait;
+   a back-off wait after an outcome that is not retryable (caller error, authentication failure, 2xx) or after the
+   third attempt or while a server-dictated poll interval is in force (as established by the authenticated responses seen so far)
+   or outside the window 2^(k-1) s +/- 500 ms after the k-th failure; two waits in a row; any wait among the event reports;
+   a RequestsPerCheck metric whose count is not the number of attempts, whose success flag does not match the last outcome,
+   or that is emitted although the last outcome was retryable, fewer than three attempts were made and no poll interval is in force
+   (so the loop stops only when it must). *)
+Require Import Verif.Model.Monitors Verif.Proofs.Monitor Verif.Proofs.C06Proof Verif.Model.Proto.
+
+Theorem C06_retry_monitor_accepts_every_model_trace :
+  forall ep cfg url cup apps e, e_trace e = [] ->
+    accepts step6 (init6 ep cup (e_store e)) (run_case ep cfg url cup apps e) = true.
+Proof. exact model_accepted_c06. Qed.
+
+(* what the request returns is a function of the outcome the environment gave *)
+Theorem C06_outcome_classes :
+  forall cup, retryable cup (HErr TUser) = false /\ retryable cup (HErr TTransport) = true /\ retryable cup (HErr TTimeout) = true /\
+    (forall st ra bd, retryable true (HResp st ra false bd) = false) /\
+    (forall st ra bd au, (cup && negb au = false) -> retryable cup (HResp st ra au bd) = negb (is_2xx st)).
+Proof.
+  intro cup. repeat split; try reflexivity. intros st ra bd au H. unfold retryable. rewrite H. reflexivity.
+Qed.
+
+Example C06_monitor_rejects :
+  let w := {| w_uri := []; w_headers := []; w_body := []; w_sum := {| ws_source := ScheduledTask; ws_session := None; ws_request := None; ws_apps := [] |} |} in
+  let q := {| cup6 := false; poll6 := None; ph6_ := Q6Att 0 None true |} in
+  (* a retry after a caller error *)
+  accepts step6 q [AHttp w (HErr TUser); ATimer (WFor 1000000000)] = false /\
+  (* a retry without a wait *)
+  accepts step6 q [AHttp w (HErr TTransport); AHttp w (HErr TTransport)] = false /\
+  (* a wait outside the window *)
+  accepts step6 q [AHttp w (HErr TTransport); ATimer (WFor 1600000000)] = false /\
+  (* giving up early *)
+  accepts step6 q [AHttp w (HErr TTransport); AMetric (MRequestsPerCheck 1 false)] = false /\
+  (* a retry although the server dictated a poll interval *)
+  accepts step6 q [AHttp w (HResp 500%N (Some (s2b "60")) true BBad); ATimer (WFor 1000000000)] = false /\
+  (* the legitimate sequence *)
+  accepts step6 q [AHttp w (HErr TTransport); ATimer (WFor 1400000000); AHttp w (HResp 200%N None true BBad); AMetric (MRequestsPerCheck 2 true)] = true.
+Proof. vm_compute. repeat split. Qed.
+
+Print Assumptions C06_retry_monitor_accepts_every_model_trace.
